@@ -48,7 +48,11 @@ func AppendHandlers(ctx context.Context, info *RunInfo, handlers ...Handler) con
 	if !ok {
 		return InitCallbacks(ctx, info, handlers...)
 	}
-	return InitCallbacks(ctx, info, append(cbm.handlers, handlers...)...)
+
+	// never append to the inherited slice itself: sibling units share its backing array
+	nh := make([]Handler, len(cbm.handlers), len(cbm.handlers)+len(handlers))
+	copy(nh, cbm.handlers)
+	return InitCallbacks(ctx, info, append(nh, handlers...)...)
 }
 
 type Handle[T any] func(context.Context, T, *RunInfo, []Handler) (context.Context, T)
@@ -59,8 +63,13 @@ func On[T any](ctx context.Context, inOut T, handle Handle[T], timing CallbackTi
 		return ctx, inOut
 	}
 
-	hs := make([]Handler, 0, len(mgr.handlers)+len(mgr.globalHandlers))
-	for _, handler := range append(mgr.handlers, mgr.globalHandlers...) {
+	// do not append the global handlers to mgr.handlers: its backing array is shared
+	all := make([]Handler, 0, len(mgr.handlers)+len(mgr.globalHandlers))
+	all = append(all, mgr.handlers...)
+	all = append(all, mgr.globalHandlers...)
+
+	hs := make([]Handler, 0, len(all))
+	for _, handler := range all {
 		timingChecker, ok_ := handler.(TimingChecker)
 		if !ok_ || timingChecker.Needed(ctx, mgr.runInfo, timing) {
 			hs = append(hs, handler)
